@@ -100,6 +100,7 @@ if merge:
     for fn in sorted(glob.glob("/tmp/matrix_rows_*.json")):
         rows += [tuple(r) for r in _json.load(open(fn))]
     order = {j[0]: i for i, j in enumerate(jobs)}
+    rows = [r for r in rows if r[0] in order]  # (changes that were retired since the shards ran are left out)
     rows.sort(key=lambda r: (order.get(r[0], 10**6), r[1]))
     for sid, patch, pids, what in jobs:
         if sid.startswith("C"):
